@@ -1,7 +1,239 @@
-import RbdlProofs.Lemmas.Rot
-/- C04 — property theorems (being filled in) -/
+import RbdlProofs.Lemmas.Kin04
+import RbdlProofs.Lemmas.Kin04Ex
+/-
+  C04 — forward kinematics follows the joint definitions.
+
+  `poseOfXT X = (X.Eᵀ, X.r)` is the pose described by a `SpatialTransform`; `Spec.jointPose` /
+  `Spec.framePose` / `Pose.comp` are the first-principles side (`Rbdl/Spec/Mech.lean`);
+  `ModelS.sjoint`, `coordsOf` (`Rbdl/Spec/Link.lean`) read the joint definition and the coordinates
+  off the model / state.  Helper notions from `RbdlProofs/Lemmas/Kin04.lean`:
+  * `JT.hasJcalc t` — `t` is one of the joint types `jcalc` handles (revoluteX/Y/Z, revolute,
+    prismatic, helical, spherical, the four Euler orders, translationXYZ, custom);
+  * `ModelS.jointUnit m i st` — the (cos, sin) pairs joint `i` reads satisfy `c² + s² = 1`, its axis
+    is unit (revolute / helical), its quaternion is unit (spherical).
+
+  Findings: the *pose* statements 1, 2, 4 are polynomial identities — no rotation hypothesis, no
+  `c² + s² = 1`, no unit axis, no unit quaternion is needed (Rodrigues' formula and `Xrot` agree
+  identically, as do `Quaternion::toMatrix` and the standard quaternion matrix).  The unit
+  hypotheses are needed only for the rotation invariant (5, 7b) and the inverse pair (6).
+  `DecidableEq α` is not needed anywhere.
+-/
 namespace Rbdl.C04
 open Lean.Grind Rbdl
-variable {α : Type} [CommRing α]
-theorem placeholder_rot_one : (M3.one : M3 α).IsRot := M3.isRot_one
+
+/-! ### 1. product of transforms = composition of poses (commutative ring, no hypothesis) -/
+
+theorem poseOfXT_mul {α : Type} [CommRing α] (X Y : XT α) :
+    poseOfXT (X * Y) = (poseOfXT Y).comp (poseOfXT X) := poseOfXT_mul' X Y
+
+variable {α : Type} [Field α]
+
+/-! ### 2. `jcalc` / `jcalc_X_lambda_S` realise the joint definition -/
+
+/-- For every joint type handled by `jcalc`: the parent→child transform written by `jcalc` is the
+    joint frame followed by the pose the joint *definition* prescribes.  No unit hypotheses. -/
+theorem jcalc_pose (m : ModelS α) (w : WS α) (i : Nat) (st : QS α) (qd : VecN α)
+    (hj : (m.joint i).jt.hasJcalc = true) :
+    poseOfXT ((jcalc m w i st qd).X_lambda i) =
+      (Spec.framePose id (m.XT_ i).E (m.XT_ i).r).comp
+        (Spec.jointPose id (m.sjoint i) (m.joint i).qIndex (m.w3 i) (coordsOf st)) := by
+  rw [jcalc_X_lambda, upd_same]
+  exact jcalcX_pose m i st _ hj
+example (w : WS Rat) (qd : VecN Rat) :=
+  jcalc_pose Ex.m w 2 Ex.st qd rfl   -- general revolute joint, axis (2,1,2)/3
+example (w : WS Rat) (qd : VecN Rat) :=
+  jcalc_pose Ex.m w 3 Ex.st qd rfl   -- spherical joint
+example (w : WS Rat) (qd : VecN Rat) :=
+  jcalc_pose Ex.m w 4 Ex.st qd rfl   -- custom (cylindrical) joint
+
+/-- same for `jcalc_X_lambda_S` -/
+theorem jcalcXlambdaS_pose (m : ModelS α) (w : WS α) (i : Nat) (st : QS α)
+    (hj : (m.joint i).jt.hasJcalc = true) :
+    poseOfXT ((jcalcXlambdaS m w i st).X_lambda i) =
+      (Spec.framePose id (m.XT_ i).E (m.XT_ i).r).comp
+        (Spec.jointPose id (m.sjoint i) (m.joint i).qIndex (m.w3 i) (coordsOf st)) := by
+  rw [jcalcXlambdaS_X_lambda, upd_same]
+  exact jcalcX_pose m i st _ hj
+example (w : WS Rat) := jcalcXlambdaS_pose Ex.m w 2 Ex.st rfl
+
+/-- the joint types outside `hasJcalc` (undefined, fixed, floatingBase, dof1..dof6 — none of them
+    is ever stored in a model by `AddBody`) are not touched by `jcalc`, so the statement cannot hold
+    for them in general -/
+example (m : ModelS α) (w : WS α) (i : Nat) (st : QS α) (qd : VecN α)
+    (hj : (m.joint i).jt.hasJcalc = false) : jcalc m w i st qd = w := by
+  unfold jcalc
+  dsimp only
+  cases h : (m.joint i).jt <;> simp only [h, JT.hasJcalc, Bool.true_eq_false] at hj <;> rfl
+
+/-! ### 3. the position loop of `UpdateKinematicsCustom` -/
+
+/-- After `UpdateKinematicsCustom(Q)`: `X_lambda[i]` is what `jcalc` computes for joint `i` (from
+    joint `i` and `st` alone), `X_base[i]` satisfies the base-outward recursion with the *final*
+    values, entry 0 is untouched. -/
+theorem ukc_step (m : ModelS α) (w : WS α) (st : QS α)
+    (htree : ∀ i, 1 ≤ i → i < m.nBodies → m.lam i < i) :
+    let w' := updateKinematicsCustom m w (some st) none none
+    (∀ i, 1 ≤ i → i < m.nBodies →
+      w'.X_lambda i = (jcalc m w i st zeroVec).X_lambda i ∧
+      w'.X_base i = if m.lam i ≠ 0 then w'.X_lambda i * w'.X_base (m.lam i) else w'.X_lambda i) ∧
+    w'.X_base 0 = w.X_base 0 ∧ w'.X_lambda 0 = w.X_lambda 0 := by
+  intro w'
+  refine ⟨fun i h1 h2 => ⟨?_, ukc_X_base m w st htree i h1 h2⟩, ?_, ?_⟩
+  · rw [jcalc_X_lambda, upd_same]; exact ukc_X_lambda m w st i h1 h2
+  · exact ukc_X_base_outside m w st 0 (Or.inl rfl)
+  · exact ukc_X_lambda_outside m w st 0 (Or.inl rfl)
+example := ukc_step Ex.m Ex.w Ex.st Ex.m_tree
+
+/-! ### 4. the workspace satisfies the recursion that defines `Spec.fkTable` -/
+
+theorem fk_pose_step (m : ModelS α) (w : WS α) (st : QS α)
+    (htree : ∀ i, 1 ≤ i → i < m.nBodies → m.lam i < i)
+    (i : Nat) (h1 : 1 ≤ i) (h2 : i < m.nBodies) (hj : (m.joint i).jt.hasJcalc = true) :
+    let w' := updateKinematicsCustom m w (some st) none none
+    let rel := (Spec.framePose id (m.XT_ i).E (m.XT_ i).r).comp
+        (Spec.jointPose id (m.sjoint i) (m.joint i).qIndex (m.w3 i) (coordsOf st))
+    poseOfXT (w'.X_base i) =
+      if m.lam i ≠ 0 then (poseOfXT (w'.X_base (m.lam i))).comp rel else rel := by
+  intro w' rel
+  obtain ⟨hl, hb⟩ := (ukc_step m w st htree).1 i h1 h2
+  have hp : poseOfXT (w'.X_lambda i) = rel := by
+    rw [show w'.X_lambda i = _ from hl]; exact jcalc_pose m w i st zeroVec hj
+  rw [show w'.X_base i = _ from hb]
+  split
+  · rw [poseOfXT_mul, hp]
+  · exact hp
+example := fk_pose_step Ex.m Ex.w Ex.st Ex.m_tree 3 (by decide) (by decide) rfl  -- λ(3) = 2 ≠ 0
+example := fk_pose_step Ex.m Ex.w Ex.st Ex.m_tree 1 (by decide) (by decide) rfl  -- λ(1) = 0
+
+/-! ### 5. all `X_base[i].E` are rotations -/
+
+theorem isRot_invariant (m : ModelS α) (w : WS α) (st : QS α)
+    (htree : ∀ i, 1 ≤ i → i < m.nBodies → m.lam i < i)
+    (hjc : ∀ i, 1 ≤ i → i < m.nBodies → (m.joint i).jt.hasJcalc = true)
+    (hframe : ∀ i, 1 ≤ i → i < m.nBodies → (m.XT_ i).E.IsRot)
+    (hunit : ∀ i, 1 ≤ i → i < m.nBodies → m.jointUnit i st)
+    (h0 : (w.X_base 0).E.IsRot) :
+    ∀ i, i < m.nBodies → ((updateKinematicsCustom m w (some st) none none).X_base i).E.IsRot := by
+  intro i
+  induction i using Nat.strongRecOn with
+  | _ i ih =>
+    intro hi
+    by_cases hz : i = 0
+    · subst hz; rw [(ukc_step m w st htree).2.1]; exact h0
+    · have h1 : 1 ≤ i := by omega
+      obtain ⟨hl, hb⟩ := (ukc_step m w st htree).1 i h1 hi
+      have hlr : ((updateKinematicsCustom m w (some st) none none).X_lambda i).E.IsRot := by
+        rw [ukc_X_lambda m w st i h1 hi]
+        exact jcalcX_isRot m i st _ (hjc i h1 hi) (hframe i h1 hi) (hunit i h1 hi)
+      rw [show (updateKinematicsCustom m w (some st) none none).X_base i = _ from hb]
+      split
+      · rw [XT.mul_E]
+        have hlt := htree i h1 hi
+        exact hlr.mul (ih (m.lam i) hlt (by omega))
+      · exact hlr
+example : ∀ i, i < Ex.m.nBodies →
+    ((updateKinematicsCustom Ex.m Ex.w (some Ex.st) none none).X_base i).E.IsRot :=
+  isRot_invariant Ex.m Ex.w Ex.st Ex.m_tree Ex.m_hasJcalc Ex.m_frames Ex.m_unit Ex.w_base0
+/-- `hjc` cannot be dropped: with a joint of a type `jcalc` ignores (never produced by `AddBody`)
+    `X_lambda[1]` keeps whatever the workspace held, here the zero matrix; all other hypotheses hold -/
+example : (∀ i, 1 ≤ i → i < Ex.mBad.nBodies → Ex.mBad.lam i < i) ∧
+    (∀ i, 1 ≤ i → i < Ex.mBad.nBodies → (Ex.mBad.XT_ i).E.IsRot) ∧
+    (∀ i, 1 ≤ i → i < Ex.mBad.nBodies → Ex.mBad.jointUnit i Ex.st) ∧
+    (Ex.wBad.X_base 0).E.IsRot ∧ 1 < Ex.mBad.nBodies ∧
+    ¬ ((updateKinematicsCustom Ex.mBad Ex.wBad (some Ex.st) none none).X_base 1).E.IsRot := by
+  refine ⟨Ex.mBad_tree, Ex.mBad_frames, Ex.mBad_unit, M3.isRot_one, by decide, ?_⟩
+  rw [Ex.mBad_X_base1]
+  intro h
+  have := h.n0
+  simp only [M3.zero] at this
+  grind
+
+/-! ### 6. `CalcBaseToBodyCoordinates` and `CalcBodyToBaseCoordinates` are mutually inverse -/
+
+theorem base_body_inverse_movable (m : ModelS α) (w : WS α) (id : Nat)
+    (p : V3 α) (hid : ¬ fixedDisc ≤ id) (h : (w.X_base id).E.IsRot) :
+    baseToBody0 m w id (bodyToBase0 m w id p) = p ∧
+    bodyToBase0 m w id (baseToBody0 m w id p) = p := by
+  unfold baseToBody0 bodyToBase0
+  simp only [if_neg hid]
+  constructor
+  · have : (w.X_base id).r + (w.X_base id).E.tmulVec p - (w.X_base id).r
+        = (w.X_base id).E.tmulVec p := by alg_ext
+    rw [this, h.mul_tmulVec]
+  · rw [h.tmulVec_mul]; alg_ext
+example (p : V3 Rat) :=
+  base_body_inverse_movable Ex.m (updateKinematicsCustom Ex.m Ex.w (some Ex.st) none none) 3 p
+    (by decide)
+    (isRot_invariant Ex.m Ex.w Ex.st Ex.m_tree Ex.m_hasJcalc Ex.m_frames Ex.m_unit Ex.w_base0
+      3 (by decide))
+
+theorem base_body_inverse_fixed (m : ModelS α) (w : WS α) (id : Nat)
+    (p : V3 α) (hid : fixedDisc ≤ id)
+    (h : (w.X_base (m.fixedBody (id - fixedDisc)).movableParent).E.IsRot)
+    (hf : (m.fixedBody (id - fixedDisc)).parentTransform.E.IsRot) :
+    baseToBody0 m w id (bodyToBase0 m w id p) = p ∧
+    bodyToBase0 m w id (baseToBody0 m w id p) = p := by
+  unfold baseToBody0 bodyToBase0
+  simp only [if_pos hid]
+  generalize (w.X_base (m.fixedBody (id - fixedDisc)).movableParent) = X at h ⊢
+  generalize (m.fixedBody (id - fixedDisc)).parentTransform = T at hf ⊢
+  constructor
+  · have e1 : ∀ u : V3 α, X.E * (X.r - (X.r + X.E.tmulVec u)) = -u := by
+      intro u
+      have : X.r - (X.r + X.E.tmulVec u) = X.E.tmulVec (-u) := by alg_ext
+      rw [this, h.mul_tmulVec]
+    have e2 : ∀ u : V3 α, -T.r - -(T.r + u) = u := by intro u; alg_ext
+    rw [e1, e2, hf.mul_tmulVec]
+  · have e1 : ∀ u : V3 α, T.r + T.E.tmulVec (T.E * (-T.r - u)) = -u := by
+      intro u; rw [hf.tmulVec_mul]; alg_ext
+    have e2 : ∀ u : V3 α, X.r + X.E.tmulVec (-(X.E * (X.r - u))) = u := by
+      intro u
+      have : -(X.E * (X.r - u)) = X.E * (u - X.r) := by alg_ext
+      rw [this, h.tmulVec_mul]; alg_ext
+    rw [e1, e2]
+example (p : V3 Rat) :=
+  base_body_inverse_fixed Ex.m (updateKinematicsCustom Ex.m Ex.w (some Ex.st) none none)
+    fixedDisc p (by decide)
+    (isRot_invariant Ex.m Ex.w Ex.st Ex.m_tree Ex.m_hasJcalc Ex.m_frames Ex.m_unit Ex.w_base0
+      2 (by decide))
+    Ex.m_fixedFrame
+
+/-! ### 7. `CalcBodyWorldOrientation` -/
+
+theorem orientation_eq (m : ModelS α) (w : WS α) (id : Nat) :
+    (worldOrientation0 m w id).2 =
+      if fixedDisc ≤ id then
+        (m.fixedBody (id - fixedDisc)).parentTransform.E *
+          (w.X_base (m.fixedBody (id - fixedDisc)).movableParent).E
+      else (w.X_base id).E := by
+  unfold worldOrientation0
+  split <;> rfl
+
+/-- the reported orientation is a rotation after `UpdateKinematicsCustom(Q)`, under the hypotheses
+    of `isRot_invariant` (for a fixed body also its `parentTransform.E` must be a rotation) -/
+theorem orientation_isRot (m : ModelS α) (w : WS α) (st : QS α)
+    (htree : ∀ i, 1 ≤ i → i < m.nBodies → m.lam i < i)
+    (hjc : ∀ i, 1 ≤ i → i < m.nBodies → (m.joint i).jt.hasJcalc = true)
+    (hframe : ∀ i, 1 ≤ i → i < m.nBodies → (m.XT_ i).E.IsRot)
+    (hunit : ∀ i, 1 ≤ i → i < m.nBodies → m.jointUnit i st)
+    (h0 : (w.X_base 0).E.IsRot) (id : Nat)
+    (hid : if fixedDisc ≤ id then
+        (m.fixedBody (id - fixedDisc)).movableParent < m.nBodies ∧
+        (m.fixedBody (id - fixedDisc)).parentTransform.E.IsRot
+      else id < m.nBodies) :
+    (worldOrientation0 m (updateKinematicsCustom m w (some st) none none) id).2.IsRot := by
+  have hinv := isRot_invariant m w st htree hjc hframe hunit h0
+  rw [orientation_eq]
+  split
+  · rename_i hfix
+    rw [if_pos hfix] at hid
+    exact hid.2.mul (hinv _ hid.1)
+  · rename_i hfix
+    rw [if_neg hfix] at hid
+    exact hinv _ hid
+example := orientation_isRot Ex.m Ex.w Ex.st Ex.m_tree Ex.m_hasJcalc Ex.m_frames Ex.m_unit
+  Ex.w_base0 3 (by rw [if_neg (by decide)]; decide)
+example := orientation_isRot Ex.m Ex.w Ex.st Ex.m_tree Ex.m_hasJcalc Ex.m_frames Ex.m_unit
+  Ex.w_base0 fixedDisc (by rw [if_pos (by decide)]; exact ⟨by decide, Ex.m_fixedFrame⟩)
+
 end Rbdl.C04
